@@ -12,7 +12,8 @@ COQ_HEADER = ("From Coq Require Import List ZArith.\nFrom RV Require Import Mode
 RUN_EXPR = "Run.C16.run"
 RULE = ("programs over 3 variables nesting rules, @media, @if/@else, @each, @for, @while and mixins (with parameters) to depth 4, "
         "with declarations (plain, !default, !global, both), reassignments depending on current values and reads at every level; "
-        "families: free, flagged-only, own-scope-only (outside the known classes) and bounded-exhaustive two-level programs; "
+        "families: free, flagged-only, own-scope-only (outside the known classes), null-shadow (explicit local null over a non-null outer "
+        "variable followed by !default) and bounded-exhaustive two-level programs; "
         "distinct = distinct source text; non-trivial = at least one read executed")
 EXHAUSTIVE = {"quick": False, "thorough": False}
 TRUSTED = ["Spec/SassScope.v: reference interpreter written from the four sentences of the property",
@@ -28,7 +29,7 @@ NVARS = 3
 # ---------------------------------------------------------------- generation
 def gen_expr(rng):
     r = rng.random()
-    if r < 0.45:
+    if r < 0.42:
         return ["int", rng.randrange(1, 10)]
     if r < 0.5:
         return ["null"]
@@ -139,6 +140,14 @@ CORPUS = [
                         ["block", "media", [["set", 0, ["int", 2], False, False], ["read", 0, 0]]], ["read", 1, 0]]]],
     [["set", 0, ["int", 1], False, False], ["while", 2, [["set", 0, ["vp", 0, 1], False, False], ["read", 0, 0]]],
      ["read", 1, 0]],
+    # seeded/C16-1: $x: 1; a { $x: null; $x: 2 !default; b: $x; c { $x: 3 !default; d: $x } } e { f: $x }
+    [["set", 0, ["int", 1], False, False],
+     ["block", "rule", [["set", 0, ["null"], False, False], ["set", 0, ["int", 2], True, False], ["read", 0, 0],
+                        ["block", "rule", [["set", 0, ["int", 3], True, False], ["read", 1, 0]]]]],
+     ["block", "rule", [["read", 2, 0]]]],
+    [["set", 0, ["int", 1], False, False],
+     ["block", "rule", [["set", 0, ["null"], False, False],
+                        ["block", "media", [["set", 0, ["int", 3], True, False], ["read", 0, 0]]], ["read", 1, 0]]]],
 ]
 
 
@@ -176,9 +185,55 @@ def small_programs():
     return out
 
 
+def wrap(kind, body, rng):
+    if kind in ("rule", "media"):
+        return ["block", kind, body]
+    if kind == "for":
+        return ["for", 2, 1, rng.choice([1, 2]), True, body]
+    if kind == "while":
+        return ["while", rng.choice([1, 2]), body]
+    if kind == "mixin":
+        return ["mixin", [[2, ["int", 8]]], body]
+    if kind == "if":
+        return ["if", ["int", 1], body, []]
+    return ["each", 2, [5], body]
+
+
+def null_shadow(rng):
+    """a non-null outer variable, shadowed by an explicit local `null`, then `!default` (same scope or nested):
+    the visible value is null, so !default must assign (seeded change C16-1 looked past the local null)"""
+    x = rng.randrange(2)
+    rid = [0]
+
+    def rd(v=None):
+        rid[0] += 1
+        return ["read", rid[0] - 1, x if v is None else v]
+    kinds = ["rule", "media", "for", "while", "mixin"]
+    k1 = rng.choice(kinds)
+    inner = [["set", x, ["null"], False, False]]
+    if rng.random() < 0.4:
+        inner.append(rd())
+    dflt = ["set", x, ["int", rng.randrange(2, 9)], True, rng.random() < 0.15]
+    r = rng.random()
+    if r < 0.55:
+        inner += [dflt, rd()]
+    elif r < 0.8:
+        inner += [wrap(rng.choice(kinds + ["if", "each"]), [dflt, rd()], rng), rd()]
+    else:
+        inner += [["set", x, ["vp", 1 - x, 10], True, False], rd(), dflt, rd()]
+    outer = [["set", x, ["int", 1], False, rng.random() < 0.3], wrap(k1, inner, rng), rd()]
+    if rng.random() < 0.4:
+        # the non-null outer variable lives in a rule instead of the global scope
+        outer = [["block", "rule", outer + [rd()]], rd()]
+    if rng.random() < 0.3:
+        outer.insert(0, ["set", 1 - x, ["int", 4], False, False])
+    return outer
+
+
 def gen_cases(ctx, tier):
     rng = ctx.rng
     cases = [{"p": p} for p in CORPUS] + [{"p": p} for p in small_programs()]
+    cases += [{"p": null_shadow(rng), "mode": "nullshadow"} for _ in range(120 if tier == "quick" else 1500)]
     mult = 1 if tier == "quick" else 15
     for mode, n, depth in (("free", 300, 3), ("free", 80, 4), ("flagged", 100, 3), ("own", 250, 3), ("own", 70, 4)):
         for _ in range(n * mult):
